@@ -575,6 +575,8 @@ UNITS += [
 
 # prune writes its rebuilt index through the Indexer (live and marked sections): the Indexer units live in C07's spec and are
 # verified as part of this property's check as well (a marked-only index file must still be written: the marked packs stay listed)
-SATELLITES = [("C07", ["indexer_constants", "Indexer", "indexer_new", "indexer_new_unindexed", "indexer_reset", "add_with", "indexer_has", "IndexFile", "indexfile_add", "indexer_save", "indexer_finalize", "indexer_add", "indexer_add_remove", "ParentResult", "TreeType"])]
+SATELLITES = [("C07", ["indexer_constants", "Indexer", "indexer_new", "indexer_new_unindexed", "indexer_reset", "add_with", "indexer_has", "IndexFile", "indexfile_add", "indexer_save", "indexer_finalize", "indexer_add", "indexer_add_remove", "ParentResult", "TreeType"]),
+              # the order in which prune writes the new index and removes old index files and packs (units of C03's spec)
+              ("C03", ["ModifierChange", "prune_removal_tail", "prune_early_index_removal", "prune_repack_finalize"])]
 
 META = {"not_covered": []}
